@@ -56,6 +56,15 @@ def enum_units(tier, seed):
     # the loop variable in a condition (always false at the pinned commit)
     cases.append({"rom": "low", "files": {}, "ir": [org, {"k": "for", "v": "i_0", "lo": L(0), "hi": L(3), "b": [{"k": "if", "c": ["id", "i_0"], "t": [db(L(0x11), ["id", "i_0"])], "e": [db(L(0x22))]}]}]})
     cases.append({"rom": "low", "files": {}, "ir": [org, {"k": "for", "v": "i_0", "lo": L(1), "hi": L(3), "b": [{"k": "for", "v": "i_1", "lo": ["id", "i_0"], "hi": ["bin", "+", ["id", "i_0"], L(2)], "b": [db(["id", "i_0"], ["id", "i_1"])]}]}]})
+    # bounds and conditions that are expressions over the enclosing loop variable / a macro parameter, written number first
+    # (`3 - i`, `2 * i`, `1 + p`): evaluated afresh for every expansion
+    for lo_t, hi_t in ((L(0), ["bin", "-", L(3), ["id", "i_0"]]), (["bin", "*", L(2), ["id", "i_0"]], ["bin", "+", ["bin", "*", L(2), ["id", "i_0"]], L(2)]),
+                       (["bin", "+", L(1), ["id", "i_0"]], L(4)), (["bin", "-", L(2), ["id", "i_0"]], ["bin", "-", L(4), ["id", "i_0"]])):
+        cases.append({"rom": "low", "files": {}, "ir": [org, {"k": "for", "v": "i_0", "lo": L(0), "hi": L(3), "b": [
+            {"k": "for", "v": "i_1", "lo": lo_t, "hi": hi_t, "b": [db(["id", "i_0"], ["id", "i_1"])]}, {"k": "if", "c": ["bin", "-", L(1), ["id", "i_0"]], "t": [db(L(0x71))], "e": [db(L(0x72))]}]}, db(L(0xEE))]})
+        cases.append({"rom": "low", "files": {}, "ir": [org, {"k": "macro", "n": "m_t", "ps": ["i_0"], "b": [
+            {"k": "for", "v": "i_1", "lo": lo_t, "hi": hi_t, "b": [db(["id", "i_0"], ["id", "i_1"])]}, {"k": "if", "c": ["bin", "-", L(2), ["id", "i_0"]], "t": [db(L(0x71))], "e": [db(L(0x72))]}]},
+            {"k": "call", "n": "m_t", "args": [L(0)]}, {"k": "call", "n": "m_t", "args": [L(2)]}, {"k": "call", "n": "m_t", "args": [L(1)]}, db(L(0xEE))]})
     # condition values
     for c in (L(0), L(1), L(5), ["neg", L(1)], ["id", "k_undefined"], ["bin", "-", L(2), L(2)], ["bin", "&", L(6), L(3)]):
         for has_else in (False, True):
